@@ -3,6 +3,7 @@ package sm2
 import (
 	"bytes"
 	"crypto/rand"
+	"hash"
 	"math/big"
 	"strconv"
 )
@@ -24,13 +25,17 @@ func zzStubKdf02(length int, x ...[]byte) ([]byte, bool) {
 			return c, true
 		}
 	}
-	// the all-zero keystream (Encrypt retries with a fresh nonce) is explored once per run
-	zzKdfZero++
-	vAssume(zzKdfZero <= 1)
+	// the all-zero keystream (Encrypt retries with a fresh nonce) is explored once per
+	// encryption; Decrypt has no retry loop and is not limited
+	if zzKdfEncrypting {
+		zzKdfZero++
+		vAssume(zzKdfZero <= 1)
+	}
 	return c, false
 }
 
 var zzKdfZero int
+var zzKdfEncrypting bool
 
 func zzQ2() int64 {
 	if vTier() == 1 {
@@ -61,19 +66,27 @@ func zzH_c02_roundtrip() {
 		// real curve: enough fresh nonces that shared points with leading zero coordinate
 		// bytes (1 in 128 each) occur
 		priv, _ := GenerateKey(rand.Reader)
-		for i := 0; i < 1500; i++ {
-			ct, err := Encrypt(&priv.PublicKey, m, rand.Reader, mode)
+		// (every other round with the one-byte prefix of m: an all-zero key stream, 1 in 256 for
+		// one byte, only occurs for the shortest plaintexts)
+		for i := 0; i < 3000; i++ {
+			mm := m
+			if i%2 == 1 {
+				mm = m[:1]
+			}
+			ct, err := Encrypt(&priv.PublicKey, mm, rand.Reader, mode)
 			vAssert("encrypt-ok", err == nil)
 			pt, err := Decrypt(priv, ct, mode)
 			vAssert("decrypt-ok", err == nil)
-			vAssert("roundtrip", bytes.Equal(pt, m))
-			vAssert("layout", len(ct) == 97+L && ct[0] == 4)
+			vAssert("roundtrip", bytes.Equal(pt, mm))
+			vAssert("layout", len(ct) == 97+len(mm) && ct[0] == 4)
 		}
 		return
 	}
 	g := zzNewGroup(zzQ2())
 	priv, _ := zzKey(g, "d")
+	zzKdfEncrypting = true
 	ct, err := Encrypt(&priv.PublicKey, m, &zzRand{}, mode)
+	zzKdfEncrypting = false
 	vAssert("encrypt-ok", err == nil)
 	if err != nil {
 		return
@@ -102,6 +115,7 @@ func zzH_c02_encrypt_empty_terminates() {
 	}
 	g := zzNewGroup(257)
 	priv, _ := zzKey(g, "d")
+	zzKdfEncrypting = true
 	_, _ = Encrypt(&priv.PublicKey, []byte{}, &zzRand{}, C1C3C2)
 	vReach("end")
 }
@@ -195,5 +209,81 @@ func zzH_c02_short_rejected() {
 	if L < 97 {
 		vAssert("too-short-rejected", err != nil)
 	}
+	vReach("end")
+}
+
+// recording SM3 object for the KDF harness: the digest is an arbitrary function of what was written
+type zzKdfHash struct {
+	buf    []byte
+	inputs [][]byte
+}
+
+func (h *zzKdfHash) Write(p []byte) (int, error) { h.buf = append(h.buf, p...); return len(p), nil }
+func (h *zzKdfHash) Reset()                      { h.buf = nil }
+func (h *zzKdfHash) Size() int                   { return 32 }
+func (h *zzKdfHash) BlockSize() int              { return 64 }
+func (h *zzKdfHash) Sum(b []byte) []byte {
+	in := append([]byte{}, h.buf...)
+	h.inputs = append(h.inputs, in)
+	return append(b, vUFBytes("sm3."+strconv.Itoa(len(in)), 32, in)...)
+}
+
+var zzKdfH *zzKdfHash
+
+func zzStubSm3NewKdf() hash.Hash { zzKdfH = &zzKdfHash{}; return zzKdfH }
+
+// H02-kdf: the key derivation function is the one of GM/T 0003.4 section 5.4.3: block i
+// (counting from 1) is SM3(x2 || y2 || i as four big-endian bytes), the blocks are
+// concatenated and cut to the requested length; the second result says whether any byte of
+// the key stream is non-zero.
+//
+//verif:property C02
+//verif:expect-reach end
+//verif:bound requested length each of {1,31,32,33,64,65} (quick) plus {95,96,97,160} (thorough); counters beyond 5 only through zzH_c02_counter_bytes (the scan for a non-zero key-stream byte costs a query per byte); two input strings of 2 symbolic bytes each; SM3 an arbitrary function of its input (recording hash object)
+//verif:outside SM3 itself (C04)
+//verif:stub github.com/tjfoc/gmsm/sm3.New zzStubSm3NewKdf
+//verif:unwind 9000
+func zzH_c02_kdf_spec() {
+	lens := []int{1, 31, 32, 33, 64, 65}
+	if vTier() == 1 {
+		lens = append(lens, 95, 96, 97, 160)
+	}
+	n := lens[vChoice("len", len(lens))]
+	x, y := vBytes("x2", 2, 2), vBytes("y2", 2, 2)
+	out, ok := kdf(n, x, y)
+	vAssert("kdf-length", len(out) == n)
+	if len(out) != n {
+		return
+	}
+	blocks := (n + 31) / 32
+	vAssert("kdf-one-hash-per-block", len(zzKdfH.inputs) == blocks)
+	if len(zzKdfH.inputs) != blocks {
+		return
+	}
+	good, nonzero := true, false
+	for i := 0; i < blocks; i++ {
+		ct := uint32(i + 1)
+		in := []byte{x[0], x[1], y[0], y[1], byte(ct >> 24), byte(ct >> 16), byte(ct >> 8), byte(ct)}
+		good = good && bytes.Equal(zzKdfH.inputs[i], in)
+		blk := vUFBytes("sm3.8", 32, in)
+		for j := 0; j < 32 && 32*i+j < n; j++ {
+			good = good && out[32*i+j] == blk[j]
+			nonzero = nonzero || blk[j] != 0
+		}
+	}
+	vAssert("kdf-is-standard-counter-mode", good)
+	vAssert("kdf-nonzero-flag", ok == nonzero)
+	vReach("end")
+}
+
+// H02-counter: the four-byte counter encoding used by the KDF is big-endian for every value.
+//
+//verif:property C02
+//verif:expect-reach end
+//verif:bound universal over the 32-bit counter
+func zzH_c02_counter_bytes() {
+	v := vU32("ct")
+	b := intToBytes(int(v))
+	vAssert("counter-big-endian", len(b) == 4 && b[0] == byte(v>>24) && b[1] == byte(v>>16) && b[2] == byte(v>>8) && b[3] == byte(v))
 	vReach("end")
 }
